@@ -141,11 +141,29 @@ pub fn generate(g: &mut G, index: u64) -> Scenario {
 }
 
 fn held(v: &View) -> String {
-    // which strong kinds were left alive: derived from the Drop ops of the program
-    let dropped: Vec<Slot> = v.sc.clients[0].ops.iter().filter_map(|o| if let Op::Drop { h } = o { Some(*h) } else { None }).filter(|h| *h < 4).collect();
+    // which strong kinds are left alive when the observation phase (the first sleep) begins:
+    // replay the program's handle operations symbolically
+    let mut present = std::collections::BTreeSet::new();
+    for o in &v.sc.clients[0].ops {
+        match o {
+            Op::Spawn { slot, .. } => {
+                present.insert(*slot);
+            }
+            Op::Clone { h, to } | Op::ToSender { h, to } | Op::ToCaller { h, to } | Op::Downgrade { h, to } | Op::ToWeakSender { h, to } | Op::ToWeakCaller { h, to } => {
+                if present.contains(h) {
+                    present.insert(*to);
+                }
+            }
+            Op::Drop { h } => {
+                present.remove(h);
+            }
+            Op::Sleep(_) => break,
+            _ => {}
+        }
+    }
     let mut s = vec![];
     for k in KINDS {
-        if !dropped.contains(&slot_of(k)) {
+        if present.contains(&slot_of(k)) {
             s.push(format!("{k:?}"));
         }
     }
